@@ -66,6 +66,13 @@ def _doc(g, r, ti, files, dirpath, depth_budget=2, allow_fail=True):
             name = f'rec{uid}.yaml'
             files[f'{dirpath}/{name}'] = emit.emit_doc(m({'r1': g.scalar(), 'r2': g.value(1)}))
             v = raw(f'!rec {name}')
+        elif c == 23 and dirpath is not None and depth_budget == 2:
+            # a long chain of includes (each file includes the next one)
+            depth = r.choice([12, 20, 20])
+            for lvl in range(depth):
+                nxt = f'!include chain{uid}_{lvl + 1}.yaml' if lvl + 1 < depth else emit.emit(g.scalar())
+                files[f'{dirpath}/chain{uid}_{lvl}.yaml'] = f'{{lvl{lvl}: {nxt}}}\n'
+            v = raw(f'!include chain{uid}_0.yaml')
         elif c == 14:
             v = raw(r.choice(['!path:parent [data, f.txt]', '!path:file [x]', '!path:parent(1) [y]', '!path [rel, p]']))
         elif c == 15:
